@@ -258,6 +258,7 @@ def run(ctx):
             ctx.violate('eval-dimensionless-qty', 'a quantity with all exponents zero was returned instead of a plain number',
                         {'op': 'eval', 'text': t}, 'number', r)
     conv_oracle(ctx, g)
+    helpers_oracle(ctx, valid)
     recombination_oracle(ctx)
     keep = [i for i, r in enumerate(res) if r.get('exc') != 'OverflowError' and r.get('kind') not in ('complex', 'other')
             and not (r.get('exc') == 'Timeout')]
@@ -298,6 +299,40 @@ def recombination_oracle(ctx):
                 ctx.violate('recomb:' + t, 'exponents that cancel do not give a plain number', {'op': 'eval', 'text': t}, 'plain number', r)
         elif r.get('kind') != 'qty' or r.get('exps') != [float(x) for x in want]:
             ctx.violate('recomb:' + t, 'exponents that add or scale to an integer are not that integer', {'op': 'eval', 'text': t}, want, r)
+
+
+def helpers_oracle(ctx, valid):
+    """with_units / to_SI_from / from_SI_to agree with eval_qty on every unit string, whatever strings were asked before"""
+    rng = ctx.rng
+    seqs = [['ms', 'm s'], ['m s', 'ms'], ['min', 'm in'], ['m in', 'min'], ['kg', 'k g'], ['k g', 'kg'], ['25 m', '2 5 m'], ['2 5 m', '25 m'],
+            ['kJ/mol', 'k J/mol', 'kJ / mol'], ['Pa', 'P a'], ['cd', 'c d'], ['hp', 'h p'], ['m^2', 'm ^ 2', 'm^ 2'], ['nm', 'n m', 'N m', 'Nm']]
+    for _ in range(ctx.n(20, 300)):
+        t = rng.choice(valid)
+        vs = [t, t.replace(' ', ''), ' '.join(t), t.replace(' ', '  '), t.replace('*', ' ')]
+        rng.shuffle(vs)
+        seqs.append(vs[:rng.randint(2, 5)])
+    res = vlib.run_impl_sharded('units', [{'op': 'helpers_seq', 'units': q_} for q_ in seqs])
+    for sq, r in zip(seqs, res):
+        for e in r.get('seq', []):
+            ctx.count(('helper', e['u']))
+            ev = e['eval']
+            if ev.get('kind') == 'num':
+                continue            # a plain number is not a unit: outside what the helpers are for
+            for nm in ('to_si', 'from_si', 'with'):
+                h = e[nm]
+                if nm == 'from_si' and ev.get('v') == 0:
+                    continue
+                if 'exc' in ev or 'exc' in h:
+                    ok = ev.get('exc') == h.get('exc') or (ev.get('kind') == 'num' and 'exc' not in h)
+                else:
+                    want = {'to_si': 2.5 * ev['v'], 'from_si': 2.5 / ev['v'] if ev['v'] else None, 'with': 2.5 * ev['v']}[nm]
+                    ok = want is None or (h.get('v') is not None and abs(h['v'] - want) <= 1e-12 * abs(want) + 1e-300)
+                    if ok and nm == 'with' and ev.get('kind') == 'qty':
+                        ok = h.get('exps') == ev.get('exps')
+                if not ok:
+                    ctx.violate('helper:%s|%s' % (nm, e['u']), 'the helper %s disagrees with eval_qty on a unit string (asked after %r)' % (nm, sq[:sq.index(e['u'])]),
+                                {'op': 'helpers_seq', 'units': sq}, ev, h)
+                    break
 
 
 def conv_oracle(ctx, g):
